@@ -166,3 +166,18 @@ Fixpoint rtb_tries (r : rtb) (ops : list op) : list bool :=
   | OTry now :: rest => let '(r', ok) := rtb_step r (OTry now) in ok :: rtb_tries r' rest
   | OResize q b :: rest => rtb_tries (fst (rtb_step r (OResize q b))) rest
   end.
+
+(* ---------- request level: dispatcher.ServeHTTP ----------
+   The dispatcher asks the limiter of the matched policy's schema for one token for EVERY request the policy
+   matches, whatever its kind (also for what the server classifies as long running: watch, pods/log,
+   pods/exec, .../proxy): admitted -> forwarded, otherwise 429. *)
+Inductive rkind := KGet | KList | KCreate | KUpdate | KDelete | KWatch | KLog | KExec | KProxy.
+
+Definition req_step (r : rtb) (k : rkind) (now up : Z) : rtb * (bool * Z) :=
+  let '(r', ok) := rtb_step r (OTry now) in (r', (ok, dispatch_status ok up)).
+
+Fixpoint req_run (r : rtb) (reqs : list (rkind * Z)) : list (bool * Z) :=
+  match reqs with
+  | [] => []
+  | (k, now) :: rest => let '(r', a) := req_step r k now 200 in a :: req_run r' rest
+  end.
